@@ -36,7 +36,7 @@ var c07Sets = [][]c07Route{
 	{{"GET", "/a.{x}", nil}, {"GET", "/{x}.{y}", nil}, {"GET", "/a/{x}-{y}/?z", nil}},
 	// a static route registered for all methods after an optional twin for GET only, with header
 	// constraints (every method's leaf has its own standing in its own tree)
-	{{"GET", "/a/?b", nil}, {"*", "/a/b", []string{"X-K", "^v$"}}, {"POST", "/{m: **}", nil}},
+	{{"GET", "/a/?z", nil}, {"*", "/a/z", []string{"X-K", "^v$"}}, {"POST", "/{m: **}", nil}},
 	// a larger mixed table (many siblings of every kind under two prefixes)
 	{{"GET", "/", nil}, {"GET", "/a", nil}, {"GET", "/a/", nil}, {"GET", "/a/b", nil}, {"GET", "/a/{x}", nil}, {"GET", "/a/{r: /[a2]+/}/z", nil}, {"GET", "/a/{m: **, capture: 3}/z", nil},
 		{"GET", "/a/c/?d", nil}, {"GET", "/z/{p}/{q}", nil}, {"GET", "/z/{p}/{q}/{r: /z+/}", nil}, {"GET", "/z/{m: **}", nil}, {"GET", "/{x}/z", nil}, {"GET", "/{s: /[.?]+/}", nil},
